@@ -45,6 +45,26 @@ ASSUMPTIONS = [
     'Model/PrimsLedger.v are trusted: Inventory.add_position = Model/Inventory.add_position on the encoded inventory '
     'and position (what add_position reads of a posting: units.number, units.currency, cost), copy.copy = identity on '
     'values, Inventory() = empty; the attribute set of a fresh Row is checked against the encoding on every run',
+    'tie by translation, group agginv (C12_source_sum_*, Gen/SrcAggInv.v; src_agginv.py): SumAmount / SumPosition / '
+    'SumInventory and the EvalAggregator methods they inherit (live MRO). NO-ALIASING assumption (rule A10): '
+    '`store[self.handle].add_amount/add_position/add_inventory(value)` is translated as read the slot - apply the method '
+    'to that value - write it back, i.e. the Inventory in the slot is assumed reachable only through the store slot (not '
+    'an argument object, a table row\'s object, another slot or group). PyMini has value semantics, so the tie CANNOT see '
+    'aliasing: an aggregator that adopts an incoming Inventory as its accumulator computes the same values in the model; it '
+    'is caught because its source no longer has the translated shape (the proofs are about the generated term) and by the '
+    'correspondence streams that re-read the inputs after aggregation (kind "input-mutated": a user table re-read after the query; first()/last() next '
+    'to sum()). Inventory.add_amount / add_position / add_inventory are the primitives of Model/PrimsAggInv.v '
+    '(= Model/Inventory.v on the encoded values; the methods\' return values are not modelled and the rule only admits '
+    'the call as a statement); the operand is an opaque PURE callable of the row context (so `sum(balance)`, whose operand '
+    'advances the Row, is covered by the balance theorems + correspondence, not by this tie); self.dtype() is assumed to '
+    'return a fresh empty inventory - the generator records from a live instance of each class that dtype is '
+    'beancount.core.inventory.Inventory and that calling it gives a new empty one (agginv_dtypes, checked in '
+    'C12_source_sum_classes); how execute_select drives the protocol per group (run_group) is C02\'s tie (Proofs/SrcAgg.v)',
+    'tie by translation, only / empty / filter_currency over inventories (C12_source_only_inventory, _empty_inventory, '
+    '_filter_currency_inventory; the envlx_ terms of Gen/SrcEnvLedger.v): Inventory.get_currency_units, is_empty and '
+    'Inventory(iterable of positions) are the primitives of Model/PrimsInvFuncs.v (= the model functions Model/Inventory.v '
+    'gained for them: total of a currency in dict order, no key, add_position one by one into an empty inventory); '
+    'iterating an Inventory yields its positions in dict order, encoded as the entries of enc_inv; currencies are interned',
 ]
 
 RATES = ['0.5', '2', '0.25', '4', '0.8', '1.25', '0.2', '5', '1.6', '0.625', '12.5', '0.08', '10', '0.1', '8',
@@ -991,6 +1011,9 @@ def compare(check, mx, cur, lab):
 # --------------------------------------------------------------------------
 # direct validation of the Inventory model against beancount.core.inventory
 
+INV_CURRENCIES = ['USD', 'EUR', 'HOOL', 'XAU']      # XAU: never held
+
+
 def inv_case(rng):
     n = rng.choice([0, 1, 2, 3, 5, 8, 12])
     keys = []
@@ -1030,14 +1053,21 @@ def inv_impl(case):
     for p in ps[case['cut']:]:
         b.add_position(p)
     a.add_inventory(b)
-    return {'trace': trace, 'final': canon_inv(inv), 'added': canon_inv(a)}
+    # the primitives of Model/PrimsInvFuncs.v (only / empty / filter_currency over inventories), on the final inventory
+    funcs = [[frac_s(inv.get_currency_units(c).number), inv.get_currency_units(c).currency, bool(inv.is_empty()),
+              canon_inv(Inventory(pos for pos in inv if pos.units.currency == c))] for c in INV_CURRENCIES]
+    return {'trace': trace, 'final': canon_inv(inv), 'added': canon_inv(a), 'funcs': funcs}
 
 
 def inv_model_expr(case, cur, lab):
     ps = [_mkpos(tuple(t)) for t in case['positions']]
     cs = [coq_pos(p.units.number, p.units.currency, p.cost, cur, lab) for p in ps]
     k = case['cut']
-    return (f'OL [add_trace {clist(cs)}; o_inv (add_inventory (sum_pos {clist(cs[:k])}) (sum_pos {clist(cs[k:])}))]')
+    funcs = clist([f'(let i := sum_pos {clist(cs)} in let c := {cur(c)} in OL [ON (fst (inventory_only c i)); '
+                   f'ON (snd (inventory_only c i)); o_bool (inventory_empty i); o_inv (inventory_filter_currency i c)])'
+                   for c in INV_CURRENCIES])
+    return (f'OL [add_trace {clist(cs)}; o_inv (add_inventory (sum_pos {clist(cs[:k])}) (sum_pos {clist(cs[k:])})); '
+            f'OL {funcs}]')
 
 
 def inv_compare(case, im, mx, cur, lab):
@@ -1050,6 +1080,10 @@ def inv_compare(case, im, mx, cur, lab):
         probs.append(f'inventory {im["final"]} != model {decode_inv(final, A_SC, cur, lab)}')
     if im['added'] != decode_inv(added, A_SC, cur, lab):
         probs.append(f'add_inventory {im["added"]} != model {decode_inv(added, A_SC, cur, lab)}')
+    mf = [[frac_s(Fraction(n, 10 ** A_SC)), cur.name(c), bool(e), decode_inv(f, A_SC, cur, lab)] for n, c, e, f in mx[2]]
+    if im['funcs'] != mf:
+        probs.append(f'get_currency_units / is_empty / Inventory(filtered positions) over {INV_CURRENCIES}: '
+                     f'{im["funcs"]} != model {mf}')
     return probs
 
 
@@ -1343,6 +1377,11 @@ def generate():
     from . import src_envledger
     out.update(gen_src.generate('envledger'))
     out.update(src_envledger.report())
+    # group `agginv` (C12_source_sum_*): coq/Gen/SrcAggInv.v from the registered SumAmount / SumPosition / SumInventory
+    # (last: a source outside the fragment raises here, after the other groups have been regenerated)
+    from . import src_agginv
+    out.update(gen_src.generate('agginv'))
+    out.update(src_agginv.report())
     return out
 
 
